@@ -110,6 +110,14 @@ def handle (op : String) (args : List String) (impl : String) : String :=
         answer (fmtObs (observe (fromI32 n))) (judge impl (specInt n)) label
       else badReq "range"
     | none => badReq "number"
+  | "fmx", [ty, ns] =>
+    -- a conversion from an integer type the crate has none for today: the model says `absent`; should one appear, the spec
+    -- judges it like the i32 conversion (outside the 16-bit range: invalid; inside: the word with that bit pattern)
+    match ns.toInt? with
+    | some n =>
+      let v := if impl == "absent" || impl == "unrepresentable" then "holds" else judge impl (specInt n)
+      answer (if impl == "unrepresentable" then "unrepresentable" else "absent") v ("x-" ++ ty)
+    | none => badReq "number"
   | "fmctor", [ks, ps] =>
     match ps.toNat? with
     | some p =>
@@ -140,6 +148,6 @@ def handle (op : String) (args : List String) (impl : String) : String :=
     | _, _ => badReq "number"
   | _, _ => badReq "op"
 
-def ops : List String := ["fm16", "fm32", "fmctor", "fm32blk"]
+def ops : List String := ["fm16", "fm32", "fmctor", "fm32blk", "fmx"]
 
 end RpmVerif.Driver.C18
